@@ -17,7 +17,23 @@
 #include <map>
 #include <string>
 
+#include <csignal>
+#include <dlfcn.h>
+
 using namespace vf;
+
+// the case being executed, reported as a FAIL line (= concrete failing input) if a sanitizer or a signal kills the run
+static std::string g_current;
+static void reportCurrent() { printf("FAIL C17 aborted (sanitizer report / signal) while running: %s\n", g_current.c_str()); fflush(stdout); }
+static void onSignal(int sig) { reportCurrent(); _Exit(1); }
+static void installCrashReporter() {
+	// g++ links libasan and libubsan as two runtimes, each with its own death callback: register with every one loaded
+	typedef void (*SetCallback)(void (*)(void));
+	for (const char* lib : { "libasan.so.8", "libasan.so.6", "libasan.so.5", "libubsan.so.1", "libtsan.so.2" })
+		if (void* h = dlopen(lib, RTLD_NOLOAD | RTLD_NOW))
+			if (SetCallback set = (SetCallback)dlsym(h, "__sanitizer_set_death_callback")) set(reportCurrent);
+	std::signal(SIGSEGV, onSignal); std::signal(SIGABRT, onSignal); std::signal(SIGFPE, onSignal);
+}
 
 struct Item { uint32_t key; uint32_t id; };
 
@@ -47,6 +63,18 @@ struct HashFn {
 };
 struct EqFn {
 	bool operator()(const Item& a, const Item& b) const { return a.key == b.key; }
+};
+
+// log of the iterSwapper calls: number of calls and an order-sensitive checksum of the (index1, index2) pairs
+struct SwapLog { uint64_t n = 0, chk = 0; };
+template<typename Iterator>
+struct TraceSwapper {
+	Iterator begin; SwapLog* log;
+	void operator()(Iterator a, Iterator b) const {
+		log->n++;
+		log->chk = log->chk * 1000003ull + (uint64_t)(a - begin) * 65537ull + (uint64_t)(b - begin) + 1;
+		std::iter_swap(a, b);
+	}
 };
 
 static uint64_t lcgNext(uint64_t x) { return x * 6364136223846793005ull + 1442695040888963407ull; }
@@ -98,15 +126,17 @@ struct Seq {
 struct Impl {
 	const HashCfg& h;
 	bool useVecIter;
-	void sort(Seq& q) const {
-		HashFn hf{ &h }; EqFn eq;
+	SwapLog sort(Seq& q) const {
+		HashFn hf{ &h }; EqFn eq; SwapLog log;
+		typedef std::vector<Item>::iterator VI;
 		if (q.pre) {
-			if (useVecIter) momo::HashSorter::SortPrehashed(q.items.begin(), q.items.size(), q.hashes.begin(), eq);
-			else momo::HashSorter::SortPrehashed(q.items.data(), q.items.size(), q.hashes.data(), eq);
+			if (useVecIter) momo::HashSorter::SortPrehashed(q.items.begin(), q.items.size(), q.hashes.begin(), eq, TraceSwapper<VI>{ q.items.begin(), &log });
+			else momo::HashSorter::SortPrehashed(q.items.data(), q.items.size(), q.hashes.data(), eq, TraceSwapper<Item*>{ q.items.data(), &log });
 		} else {
-			if (useVecIter) momo::HashSorter::Sort(q.items.begin(), q.items.size(), hf, eq);
-			else momo::HashSorter::Sort(q.items.data(), q.items.size(), hf, eq);
+			if (useVecIter) momo::HashSorter::Sort(q.items.begin(), q.items.size(), hf, eq, TraceSwapper<VI>{ q.items.begin(), &log });
+			else momo::HashSorter::Sort(q.items.data(), q.items.size(), hf, eq, TraceSwapper<Item*>{ q.items.data(), &log });
 		}
+		return log;
 	}
 	bool isSorted(Seq& q) const {
 		HashFn hf{ &h }; EqFn eq;
@@ -144,8 +174,10 @@ struct Impl {
 static const char* modeStr(const Seq& q) { return q.pre ? "prehashed" : "plain"; }
 
 // property-level check of a Sort result against its input
-static void checkSorted(Ctx& c, const HashCfg& h, const Seq& before, const Seq& after)
+// returns whether the result is a correctly arranged sequence (later operations are specified only then)
+static bool checkSorted(Ctx& c, const HashCfg& h, const Seq& before, const Seq& after)
 {
+	int failsBefore = c.failures;
 	size_t n = before.items.size();
 	bool ok = after.items.size() == n;
 	std::vector<uint32_t> seen(n, 0);
@@ -166,6 +198,7 @@ static void checkSorted(Ctx& c, const HashCfg& h, const Seq& before, const Seq& 
 		for (size_t i = 0; inStep && i < n; ++i) if (after.hashes[i] != (size_t)h(after.items[i].key)) inStep = false;
 		if (!inStep) c.fail("C17 sort-parallel-hashes: prehashed %s input keys=%s: hash array no longer matches the items", tabStr(h).c_str(), keysStr(before.items).c_str());
 	}
+	return c.failures == failsBefore;
 }
 
 // Find / GetBounds against a linear scan; writes the op lines
@@ -220,7 +253,7 @@ static void isSortedLine(Ctx& c, Suite& s, const HashCfg& h, const Impl& impl, S
 		c.fail("C17 issorted: %s %s keys=%s IsSorted returned %d, linear scan says %d", modeStr(q), tabStr(h).c_str(), keysStr(q.items).c_str(), (int)got, (int)want);
 }
 
-static std::string sortLine(const Seq& q)
+static std::string sortLine(const Seq& q, const SwapLog& log)
 {
 	std::string line;
 	for (size_t i = 0; i < q.items.size(); ++i) line += fmt(i ? " %u" : "%u", q.items[i].id);
@@ -229,7 +262,7 @@ static std::string sortLine(const Seq& q)
 		for (size_t i = 0; i < q.hashes.size(); ++i) line += fmt(" %llu", (unsigned long long)q.hashes[i]);
 		if (q.hashes.empty()) line += " ";
 	}
-	return line;
+	return line + fmt(" ; %llu %llu", (unsigned long long)log.n, (unsigned long long)log.chk);
 }
 
 static void setHash(Suite& s, const HashCfg& h)
@@ -253,14 +286,15 @@ static void runArith(Ctx& c, Rng& rng)
 	for (uint64_t x = 0; x < 40; ++x) edge.push_back(x);
 	edge.push_back(0xFFFFFFFF00000000ull); edge.push_back(0x00000000FFFFFFFFull); edge.push_back(0xFFFFFFFEFFFFFFFFull);
 	auto one = [&](uint64_t hv, uint64_t n) {
+		g_current = fmt("pvMultShift(%llu, %llu)", (unsigned long long)hv, (unsigned long long)n);
 		size_t r = momo::HashSorter::pvMultShift((size_t)hv, (size_t)n);
 		s.op(fmt("ms %llu %llu", (unsigned long long)hv, (unsigned long long)n)); s.res(fmt("%zu", r));
 		c.stats.evaluations++;
 		unsigned __int128 prod = (unsigned __int128)hv * n;
 		uint64_t hi = (uint64_t)(prod >> 64);
-		// the property needs an index inside the sequence: r < n (n > 0); r never exceeds floor(h*n / 2^64)
-		if ((n > 0 && r >= n) || r > hi)
-			c.fail("C17 multshift: pvMultShift(%llu, %llu) = %zu, needs < %llu and <= floor(h*n/2^64) = %llu", (unsigned long long)hv, (unsigned long long)n, r, (unsigned long long)n, (unsigned long long)hi);
+		// the property needs an index inside the sequence: r < n whenever n > 0 (the exact value is compared with the model)
+		if (n > 0 && r >= n)
+			c.fail("C17 multshift: pvMultShift(%llu, %llu) = %zu is not an index below %llu (floor(h*n/2^64) = %llu)", (unsigned long long)hv, (unsigned long long)n, r, (unsigned long long)n, (unsigned long long)hi);
 		if (r == hi) c.stats.count("multshift.exact"); else c.stats.count("multshift.below_exact");
 	};
 	for (uint64_t hv : edge) for (uint64_t n : edge) one(hv, n);
@@ -315,6 +349,7 @@ static void runExhaustive(Ctx& c, Rng& rng)
 					for (unsigned i = 0; i < len; ++i) { q.items.push_back(Item{ (uint32_t)(x % 3), i }); x /= 3; }
 					if (q.pre) for (auto& it : q.items) q.hashes.push_back((size_t)h(it.key));
 					Impl impl{ h, (flip++ & 1) != 0 };
+					g_current = fmt("%s %s %s, IsSorted/Find/GetBounds/Sort on keys=", tb.first.c_str(), modeStr(q), tabStr(h).c_str()) + keysStr(q.items);
 					setLine(s, q);
 					bool arranged = specIsSorted(q.items, h);
 					isSortedLine(c, s, h, impl, q, false);
@@ -323,16 +358,19 @@ static void runExhaustive(Ctx& c, Rng& rng)
 						c.stats.count("exh.queried_unsorted_but_arranged");
 					}
 					Seq before = q;
-					impl.sort(q);
-					s.op("sort"); s.res(sortLine(q));
+					SwapLog log = impl.sort(q);
+					s.op("sort"); s.res(sortLine(q, log));
+					c.stats.count("sort.swaps", log.n);
 					c.stats.evaluations++;
-					checkSorted(c, h, before, q);
-					isSortedLine(c, s, h, impl, q, false);
-					queries(c, s, h, impl, q, qkeys);
+					// IsSorted / Find / GetBounds on the result are specified only if Sort arranged it (and kept the hashes in step)
+					if (checkSorted(c, h, before, q)) {
+						isSortedLine(c, s, h, impl, q, false);
+						queries(c, s, h, impl, q, qkeys);
+					}
 					std::set<uint32_t> distinct; for (auto& it : q.items) distinct.insert(it.key);
 					if (len >= 3 && distinct.size() >= 2) c.stats.nontrivial(fmt("%s/%d/%u/%llu", tb.first.c_str(), pre, len, code));
 					c.stats.count(fmt("exh.len%u", len));
-					if (len == 5 && code == 77) c.stats.sample(fmt("exh %s %s keys=%s -> ids %s", tb.first.c_str(), modeStr(q), keysStr(before.items).c_str(), sortLine(q).c_str()));
+					if (len == 5 && code == 77) c.stats.sample(fmt("exh %s %s keys=%s -> ids %s", tb.first.c_str(), modeStr(q), keysStr(before.items).c_str(), sortLine(q, log).c_str()));
 				}
 			}
 		}
@@ -379,15 +417,17 @@ static void runRandom(Ctx& c, Rng& rng)
 		for (size_t i = 0; i < n; ++i) { x = lcgNext(x); q.items.push_back(Item{ (uint32_t)((x >> 33) % K), (uint32_t)i }); }
 		if (q.pre) for (auto& it : q.items) q.hashes.push_back((size_t)h(it.key));
 		Impl impl{ h, (round & 1) != 0 };
+		g_current = fmt("random sequence %s %s n=%zu K=%llu lcg-seed=%llu (keys = (lcg >> 33) %% K), IsSorted/Sort/Find/GetBounds", modeStr(q), tabStr(h).c_str(), n, (unsigned long long)K, (unsigned long long)seed);
 		setHash(s, h);
 		s.op(fmt("gen %s %zu %llu %llu", q.pre ? "h" : "p", n, (unsigned long long)K, (unsigned long long)seed)); s.res("ok");
 		isSortedLine(c, s, h, impl, q, true);
 		Seq before = q;
-		impl.sort(q);
-		s.op("sortsum"); s.res(fmt("%zu %llu %llu", q.items.size(), (unsigned long long)chkIds(q.items), (unsigned long long)chkU64(q.hashes)));
+		SwapLog log = impl.sort(q);
+		s.op("sortsum"); s.res(fmt("%zu %llu %llu ; %llu %llu", q.items.size(), (unsigned long long)chkIds(q.items), (unsigned long long)chkU64(q.hashes), (unsigned long long)log.n, (unsigned long long)log.chk));
+		c.stats.count("sort.swaps", log.n);
 		c.stats.evaluations++;
-		checkSorted(c, h, before, q);
-		isSortedLine(c, s, h, impl, q, true);
+		bool sortedOk = checkSorted(c, h, before, q);
+		if (sortedOk) isSortedLine(c, s, h, impl, q, true);
 		std::vector<uint32_t> keys;
 		unsigned nq = c.thorough ? 60 : 30;
 		for (unsigned i = 0; i < nq; ++i) {
@@ -399,7 +439,7 @@ static void runRandom(Ctx& c, Rng& rng)
 			}
 		}
 		if (n) { keys.push_back(q.items[0].key); keys.push_back(q.items[n - 1].key); }
-		queries(c, s, h, impl, q, keys);
+		if (sortedOk) queries(c, s, h, impl, q, keys);
 		size_t sc = momo::HashSorter::pvGetStepCount(n);
 		c.stats.count(fmt("rand.stepcount%zu", sc));
 		c.stats.count(fmt("rand.fam%u", h.fam));
@@ -412,6 +452,7 @@ static void runRandom(Ctx& c, Rng& rng)
 int main(int argc, char** argv)
 {
 	Ctx c = parseArgs(argc, argv);
+	installCrashReporter();
 	Rng rng(c.seed * 0x1000 + 17);
 	runArith(c, rng);
 	runExhaustive(c, rng);
